@@ -24,7 +24,7 @@ CSTR = dict(bin="cstrfmt", driver="cstrfmt_driver", model_ml="cstrfmt_model", ex
 
 CONFIG = dict(
 
-    claim="Machine-checked proof that the executable models - which return the distinguished outcome Fault for every panic of a checked build (integer overflow, slice index, length mismatch, unwrap) - never return it: header validation of both formats and the wrapper constructors on any buffer at any address (C02_validate_total, C02_wrapper_total), address translation on any section table (C02_rva_to_file_offset_total ...), slicing and reading on file and mapped views for any (address, min_size, align), the typed read family on both paths including the sentinel scans, relocation iteration/fold/build, the Rich header scans, the string enumerator, the pattern parser on any byte string, the pattern interpreter on any atom list, and the C string formatters. The no-fault theorems of the directory modules are restated here from their own properties: to_view/to_file (C02_to_view_total, C02_to_file_total), export table extraction and get_proc_address by ordinal/name/import (C02_exports_by_total, C02_get_proc_address_total), imports and thunk decoding (C02_imports_total, C02_import_from_va_total), Matches::next for every pattern and range (C02_scanner_next_total), version info with ANY visitor (C02_version_info_total), RichIter under any call history (C02_rich_iter_total), exception/security/debug/TLS/load-config (C02_directories_total) and the resource consistency check on any bytes (C02_resources_fsck_total). Tied to /repo by re-running every component correspondence in debug (overflow checks, std UB checks) AND release builds with every API call under catch_unwind in isolated workers, plus a walker that calls the whole public API (accessors, directory parsers, iterators, Debug/Display, serde_json, scanner, to_view/to_file, resources incl. fsck/version info/icon groups) on the shipped PE files (2 demo DLLs, 11 tiny, 217 corkami) and field-level corruptions of them.",
+    claim="Machine-checked proof that the executable models - which return the distinguished outcome Fault for every panic of a checked build (integer overflow, slice index, length mismatch, unwrap) - never return it: header validation of both formats and the wrapper constructors on any buffer at any address (C02_validate_total, C02_wrapper_total), address translation on any section table (C02_rva_to_file_offset_total ...), slicing and reading on file and mapped views for any address and min_size and any power-of-two align (anything else fails AlignTo's debug assertion by design), the typed read family on both paths including the sentinel scans, relocation iteration/fold/build, the Rich header scans, the string enumerator, the pattern parser on any byte string, the pattern interpreter on any atom list, and the C string formatters. The no-fault theorems of the directory modules are restated here from their own properties: to_view/to_file (C02_to_view_total, C02_to_file_total), export table extraction and get_proc_address by ordinal/name/import (C02_exports_by_total, C02_get_proc_address_total), imports and thunk decoding (C02_imports_total, C02_import_from_va_total), Matches::next for every pattern and range (C02_scanner_next_total), version info with ANY visitor (C02_version_info_total), RichIter under any call history (C02_rich_iter_total), exception/security/debug/TLS/load-config (C02_directories_total) and the resource consistency check on any bytes (C02_resources_fsck_total). Tied to /repo by re-running every component correspondence in debug (overflow checks, std UB checks) AND release builds with every API call under catch_unwind in isolated workers, plus a walker that calls the whole public API (accessors, directory parsers, iterators, Debug/Display, serde_json, scanner, to_view/to_file, resources incl. fsck/version info/icon groups) on the shipped PE files (2 demo DLLs, 11 tiny, 217 corkami) and field-level corruptions of them.",
     note="Partial: stack bytes are outside the model (depth is bounded by theorems, F31 - about 10k skip ranges in one pattern exhaust an 8 MiB stack in a debug build - is outside the generators); formatters and serializers other than the C string escape loops are exercised by the walker, not modelled. Trusted: Coq kernel, extraction and glue, catch_unwind + process isolation of the harness.",
     extract=["CStrFmt"],
     release_in_quick=True,
